@@ -61,6 +61,13 @@ func (r *Rand) Perm(n int) []int {
 
 func Pick[T any](r *Rand, xs []T) T { return xs[r.Intn(len(xs))] }
 
+func mix64(z uint64) uint64 {
+	z += 0x9e3779b97f4a7c15
+	z = (z ^ (z >> 30)) * 0xbf58476d1ce4e5b9
+	z = (z ^ (z >> 27)) * 0x94d049bb133111eb
+	return z ^ (z >> 31)
+}
+
 func hash64(parts ...string) uint64 {
 	h := fnv.New64a()
 	for _, p := range parts {
@@ -181,6 +188,14 @@ func (o *Obs) Violation(signature, detail string) {
 	o.viol = append(o.viol, Violation{Signature: signature, Detail: detail, Kind: o.Kind, Index: o.Index, Seed: o.c.Seed, Desc: o.desc})
 }
 
+// AddEvaluations counts executions inside one case (e.g. crash points,
+// schedules) as evaluations of their own.
+func (o *Obs) AddEvaluations(n int64) {
+	o.c.mu.Lock()
+	o.c.res.Evaluations += n
+	o.c.mu.Unlock()
+}
+
 func (o *Obs) Violated() bool { return len(o.viol) > 0 }
 
 func (o *Obs) Count(name string, n int64) { o.c.Count(name, n) }
@@ -239,7 +254,7 @@ func (c *Ctx) Mine(kind string, index int) bool {
 	if c.NBatches <= 1 {
 		return true
 	}
-	return int(hash64(kind, fmt.Sprint(index))%uint64(c.NBatches)) == c.Batch
+	return int(mix64(hash64(kind, fmt.Sprint(index)))%uint64(c.NBatches)) == c.Batch
 }
 
 // Case executes fn as case (kind,index) if it belongs to this process.  The
